@@ -104,7 +104,7 @@ type c06Stream struct{}
 func (c06Stream) Name() string               { return "c06" }
 func (c06Stream) CaseTimeout() time.Duration { return 60 * time.Second }
 func (c06Stream) Rule() string {
-	return "K simultaneous connections (1..8; plain / TLS / StartTLS), each pipelining N requests (1..256) of a random mix of the six dispatched operations in one write, routed by per-operation routes or (one case in three) all by the default route; every handler blocks until ALL handlers of ALL connections have started (rendezvous), so the scenario only completes if no dispatch waits for an earlier handler; oracle: the rendezvous completes, and on every connection Request.ID is 1..N in arrival (message id) order and ConnectionID is constant; the hook trace of every connection is replayed through the Lean connection automaton; non-trivial = N >= 2, distinct by scenario"
+	return "K simultaneous connections (1..8; plain / TLS / StartTLS), each pipelining N requests (1..256) of a random mix of the six dispatched operations in one write, routed by per-operation routes, all by the default route, or by nothing at all (a server whose Router was never called: every request must be refused with its operation's response type); every handler blocks until ALL handlers of ALL connections have started (rendezvous), so the scenario only completes if no dispatch waits for an earlier handler; oracle: the rendezvous completes, and on every connection Request.ID is 1..N in arrival (message id) order and ConnectionID is constant; the hook trace of every connection is replayed through the Lean connection automaton; non-trivial = N >= 2, distinct by scenario"
 }
 
 func (c06Stream) Generate(rng *rand.Rand, n int, thorough bool) []Case {
@@ -118,7 +118,7 @@ func (c06Stream) Generate(rng *rand.Rand, n int, thorough bool) []Case {
 			k = 1 + rng.Intn(2)
 		}
 		cs = append(cs, Case{Line: fmt.Sprintf("c06 conns=%d n=%d mode=%s seed=%d routes=%s", k, np, []string{"plain", "plain", "tls", "starttls"}[rng.Intn(4)], rng.Intn(1<<30),
-			[]string{"all", "all", "default"}[rng.Intn(3)]), Kind: "pipeline"})
+			[]string{"all", "all", "default", "none"}[rng.Intn(4)]), Kind: "pipeline"})
 	}
 	return cs
 }
@@ -139,6 +139,9 @@ func (c06Stream) Impl(c Case) string {
 		answer(w, r)
 	}
 	mux := allRoutes(h, startTLSHandler(srvTLS, 0, 0), nil)
+	if p["routes"] == "none" && mode != "starttls" {
+		return c06NoRouter(k, n, mode, rng)
+	}
 	if p["routes"] == "default" {
 		// every operation is served by the default route (only StartTLS has a route of its own)
 		mux, _ = gldap.NewMux()
@@ -229,6 +232,54 @@ func (c06Stream) Impl(c Case) string {
 	return verdict + "\t" + traceString(sut.tr.Snapshot(), "conn.", "loop.", "req.")
 }
 
+// c06NoRouter: a server on which Router was never called. Every request must be refused by gldap itself, with the
+// response type of the request's operation, the request's message id and unwillingToPerform - and in arrival order
+// nothing is lost or answered twice.
+func c06NoRouter(k, n int, mode string, rng *rand.Rand) string {
+	sut, err := startServer(nil, serverTLSFor(mode), nil)
+	if err != nil {
+		return "harness-error start: " + err.Error()
+	}
+	wantTag := map[string]int{"bind": 1, "search": 5, "modify": 7, "add": 9, "delete": 11, "extended": 24}
+	verdict := "ok"
+	for i := 0; i < k && verdict == "ok"; i++ {
+		cl, err := connect(sut.addr, mode)
+		if err != nil {
+			return "harness-error connect: " + err.Error()
+		}
+		var kinds []string
+		var buf []byte
+		for j := 0; j < n; j++ {
+			kind := opKinds[rng.Intn(len(opKinds))]
+			kinds = append(kinds, kind)
+			buf = append(buf, opFrame(kind, int64(1000+j))...)
+		}
+		_ = cl.send(buf)
+		seen := map[int64]bool{}
+		for j := 0; j < n; j++ {
+			f, err := cl.readFrame(10 * time.Second)
+			if err != nil {
+				verdict = fmt.Sprintf("no router: response %d of %d missing: %v", j+1, n, err)
+				break
+			}
+			var id int64
+			var tag, code int
+			if _, e := fmt.Sscanf(strictView(f), "result id=%d tag=%d code=%d", &id, &tag, &code); e != nil || id < 1000 || id >= int64(1000+n) || seen[id] {
+				verdict = "no router: unexpected response " + strictView(f)
+				break
+			}
+			seen[id] = true
+			if tag != wantTag[kinds[id-1000]] || code != 53 {
+				verdict = fmt.Sprintf("no router: the refusal of a %s request has tag %d code %d, want tag %d code 53", kinds[id-1000], tag, code, wantTag[kinds[id-1000]])
+				break
+			}
+		}
+		cl.close()
+	}
+	sut.finish()
+	return verdict + "\t" + traceString(sut.tr.Snapshot(), "conn.", "loop.", "req.")
+}
+
 func (c06Stream) ModelLine(c Case, trace string) string { return "trace conn " + trace }
 
 func (c06Stream) Oracle(c Case, impl string) (bool, string, string) {
@@ -258,7 +309,7 @@ type c10Stream struct{}
 func (c10Stream) Name() string               { return "c10" }
 func (c10Stream) CaseTimeout() time.Duration { return 60 * time.Second }
 func (c10Stream) Rule() string {
-	return "pipelines <pre requests> Unbind <post requests> written in ONE TCP segment (pre 0..8, post 0..8 of the six dispatched operations), with and without an unbind route, earlier handlers blocked until released (30 ms, occasionally 2.5 s, after the unbind was read) or finishing at once, plain / TLS / StartTLS; oracle: the unbind handler runs exactly once iff registered, gldap sends no response to the unbind, no handler ever runs for a post request, the client gets exactly the pre responses and then EOF, and the socket is not closed while earlier handlers are still blocked; trace replayed through the connection automaton; non-trivial = post >= 1, distinct by scenario"
+	return "pipelines <pre requests> Unbind <post requests> written in ONE TCP segment (pre 0..8, post 0..8 of the six dispatched operations), with and without an unbind route (whose handler, in some cases, panics), earlier handlers blocked until released (30 ms, occasionally 2.5 s, after the unbind was read) or finishing at once, plain / TLS / StartTLS; oracle: the unbind handler runs exactly once iff registered, gldap sends no response to the unbind, no handler ever runs for a post request, the client gets exactly the pre responses and then EOF, and the socket is not closed while earlier handlers are still blocked; trace replayed through the connection automaton; non-trivial = post >= 1, distinct by scenario"
 }
 
 func (c10Stream) Generate(rng *rand.Rand, n int, thorough bool) []Case {
@@ -268,8 +319,12 @@ func (c10Stream) Generate(rng *rand.Rand, n int, thorough bool) []Case {
 		if rng.Intn(12) == 0 {
 			hold = 2500 // handlers that stay busy for seconds after the unbind was read
 		}
-		cs = append(cs, Case{Line: fmt.Sprintf("c10 pre=%d post=%d route=%d block=%d mode=%s seed=%d hold=%d", rng.Intn(9), rng.Intn(9), rng.Intn(2), rng.Intn(2),
-			[]string{"plain", "plain", "tls", "starttls"}[rng.Intn(4)], rng.Intn(1<<30), hold), Kind: "unbind"})
+		route, upanic := rng.Intn(2), 0
+		if route == 1 && rng.Intn(4) == 0 {
+			upanic = 1 // the application's unbind handler panics: the Unbind still ends the connection
+		}
+		cs = append(cs, Case{Line: fmt.Sprintf("c10 pre=%d post=%d route=%d block=%d mode=%s seed=%d hold=%d upanic=%d", rng.Intn(9), rng.Intn(9), route, rng.Intn(2),
+			[]string{"plain", "plain", "tls", "starttls"}[rng.Intn(4)], rng.Intn(1<<30), hold, upanic), Kind: "unbind"})
 	}
 	return cs
 }
@@ -297,6 +352,9 @@ func (c10Stream) Impl(c Case) string {
 			umu.Lock()
 			unbinds++
 			umu.Unlock()
+			if p["upanic"] == "1" {
+				panic("unbind handler panic injected by the harness")
+			}
 		}
 	}
 	sut, err := startServer(allRoutes(h, startTLSHandler(srvTLS, 0, 0), uh), serverTLSFor(mode), nil)
